@@ -131,6 +131,7 @@ def _rtol_for(variant, default):
 
 _P3 = {("A", "R_BC", "D"): {"p_break": True}, ("A", "R_BD", "C"): {"p_break": True}, ("A", "R_CD", "B"): {"p_break": True}}
 _CM = {"align_ref": "center_mass", "center_mass": True}
+_HP = {("R_BC", "B", "C"): {"model": "helicity_parity"}}
 
 # variant -> (structure, [(label, chains, vertex options, extra data options)], parity admissible?)
 C01_CATALOGUE = {
@@ -156,6 +157,9 @@ C01_CATALOGUE = {
                               ("branching", ["br"], {("A", "R_BC", "R_DE"): {"p_break": True}}, None)], False),
         ("f4@shared_vertex", "f4", [("2ch", ["cas2", "cas3"], None, None), ("4ch", None, None, None)], True),
         ("sid2g", "sid2g", [("1ch", ["br"], None, None), ("2ch", None, None, None)], True),
+        # decay-vertex models other than the default LS couplings: helicity couplings with the parity relation built in
+        # (fermion -> fermion + boson vertex R_BC(3/2-) -> B(1/2+) C(0-), interfering with chains that do not contain it)
+        ("f4@helicity_parity", "f4", [("2ch", ["cas", "cas2"], _HP, None), ("3ch", ["cas", "cas2", "br"], _HP, None)], True),
     ],
 }
 
